@@ -9,6 +9,7 @@ import (
 	"go.sia.tech/core/gateway"
 	"go.sia.tech/core/types"
 
+	"verif/internal/ledger"
 	"verif/internal/univ"
 )
 
@@ -527,5 +528,102 @@ func c11Requests(u *univ.Universe, tips map[string]int) []c11scn {
 			return r.judge(name, tips["T12"], reached, "")
 		}})
 	}
+	return out
+}
+
+// c11ForgedCheckpoints: above the v2 require height the victim asks the peer for a "checkpoint" (a block and the
+// state before it) and validates the following blocks against the state derived from it.
+//
+//	forged-body: the checkpoint block is one the victim already has, served with an inflated miner payout. Neither
+//	  the block id nor the commitment covers the payout value, and the attacker has mined its own blocks on top
+//	  of the state that results from the forged body.
+//	foreign-state: block number 100 of a 101-block attacker chain commits to a state that is not its parent's
+//	  (the second 100-block request uses it as its checkpoint).
+func c11ForgedCheckpoints(u0 *univ.Universe, tips0 map[string]int) []c11scn {
+	var out []c11scn
+	for _, withH := range []bool{false, true} {
+		name := fmt.Sprintf("forged-checkpoint body (miner payout x2, same id) honestPeer=%v", withH)
+		out = append(out, c11scn{name, func() (string, string) {
+			u, tips := c11Universe()
+			t9 := tips["T9"]
+			forged := cloneBlock(u.Nodes[t9].Block)
+			forged.MinerPayouts[0].Value = forged.MinerPayouts[0].Value.Mul64(2)
+			st, _ := consensus.ApplyBlock(u.Nodes[tips["T8"]].L.State, forged, consensus.V1BlockSupplement{}, time.Time{})
+			parent := t9
+			for i := 1; i <= 5; i++ {
+				b := univ.BuildBlock(&ledger.Ledger{State: st}, univ.TS(u.Net, st.Index.Height+1, 3), u.As[3].Addr, nil, nil)
+				parent = u.AddRaw(parent, b, fmt.Sprintf("F%d", i))
+				st, _ = consensus.ApplyBlock(st, b, consensus.V1BlockSupplement{}, time.Time{})
+			}
+			if u.Nodes[parent].Valid || !u.Nodes[parent].HeaderOK {
+				return "harness:forged-chain", fmt.Sprintf("forged chain classified valid=%v headerOK=%v", u.Nodes[parent].Valid, u.Nodes[parent].HeaderOK)
+			}
+			t9id := u.Nodes[t9].Block.ID()
+			mut := &mutation{Name: "ck-forged-body", RPC: "SendCheckpoint", Nth: -1, Apply: func(b *byz, o gateway.Object) string {
+				r := o.(*gateway.RPCSendCheckpoint)
+				if r.Block.ID() == t9id {
+					r.Block = forged
+				}
+				return ""
+			}}
+			hTip := -1
+			if withH {
+				hTip = tips["T12"]
+			}
+			r, err := newC11Rig(u, t9, hTip, parent, mut, "BH")
+			if err != nil {
+				return "harness:setup", err.Error()
+			}
+			defer r.close()
+			reached := r.settle(hTip, 60*time.Second)
+			return r.judge(name, hTip, reached, "")
+		}})
+	}
+	out = append(out, c11scn{"forged-checkpoint foreign-state (block 100 of 101 commits to a state that is not its parent's)", func() (string, string) {
+		u, tips := c11Universe()
+		k := tips["T9"]
+		for i := 1; i <= 101; i++ {
+			if i == 100 {
+				// commitment over the state of T8 (not the parent's), parent id and proof of work as the header chain demands
+				p := u.Nodes[k]
+				b := univ.BuildBlock(&ledger.Ledger{State: u.Nodes[tips["T8"]].L.State}, univ.TS(u.Net, p.Height+1, 0), u.As[3].Addr, nil, nil)
+				b.ParentID = p.Block.ID()
+				b.V2.Height = p.Height + 1
+				univ.Mine(p.HS, &b)
+				k = u.AddRaw(k, b, "X100")
+				continue
+			}
+			if i < 100 {
+				k = u.Add(k, 0, nil, nil, fmt.Sprintf("X%d", i)) // valid, so that the first request goes through
+			} else {
+				k = u.AddHeaderOnly(k, 0, fmt.Sprintf("X%d", i))
+			}
+		}
+		if !u.Nodes[k].HeaderOK {
+			return "harness:forged-chain", "the 101-block header chain is not header-valid: " + u.Nodes[k].Err
+		}
+		x100 := u.Nodes[u.Nodes[k].Parent]
+		mut := &mutation{Name: "ck-foreign-state", RPC: "SendCheckpoint", Nth: -1, Apply: func(b *byz, o gateway.Object) string {
+			r := o.(*gateway.RPCSendCheckpoint)
+			if r.Block.ID() == x100.Block.ID() {
+				r.State = u.Nodes[tips["T8"]].L.State
+			}
+			return ""
+		}}
+		r, err := newC11Rig(u, tips["T9"], -1, k, mut, "B")
+		if err != nil {
+			return "harness:setup", err.Error()
+		}
+		defer r.close()
+		// a second scripted peer with the same chain and the same lie: the victim hands the second 100-block
+		// request (whose checkpoint is X100) to its second worker
+		b2 := newByz(u, k, mut)
+		if err := b2.dial(r.c.mn, "10.67.0.1", r.v.addr); err != nil {
+			return "harness:setup", err.Error()
+		}
+		defer b2.close()
+		r.settle(-1, 20*time.Second)
+		return r.judge("forged-checkpoint foreign-state", -1, true, "")
+	}})
 	return out
 }
